@@ -84,6 +84,14 @@ impl Report {
     pub fn count_n(&mut self, k: &str, n: u64) {
         *self.counters.entry(k.to_string()).or_insert(0) += n;
     }
+    pub fn get(&self, k: &str) -> u64 {
+        *self.counters.get(k).unwrap_or(&0)
+    }
+    /// floor on the sum of some counters
+    pub fn floor_on(&mut self, name: &str, required: u64, keys: &[&str]) {
+        let v: u64 = keys.iter().map(|k| self.get(k)).sum();
+        self.floor(name, required, v);
+    }
     pub fn case(&mut self, k: String) {
         self.distinct.insert(k);
     }
